@@ -756,10 +756,13 @@ def coincidence_symmetry(repo: Repo) -> RuleRun:
     verts = [vtx(f"v{i}", 10 + i, 10 + i) for i in range(12)]
 
     def axis(name, pairs):
+        from ..peval import empty_defaults
+
         ax = Obj(name, cls=axis_cls)
         ax.set("wires", [_wire(repo, f"{name}.w{i}", p[0], p[1]) for i, p in enumerate(pairs)])
         ax.set("neighbours", set())
         ax.set("index", 0)
+        empty_defaults(repo, axis_cls, ax)  # whatever else the constructor starts empty
         return ax
 
     base_pairs = [(verts[0], verts[1]), (verts[2], verts[3]), (verts[4], verts[5]), (verts[6], verts[7])]
@@ -774,6 +777,22 @@ def coincidence_symmetry(repo: Repo) -> RuleRun:
             r.check(got, addn, f"shared wire #{pos} ({'reversed' if rev else 'aligned'}) -> neighbour", f"Axis.add_neighbour misses an axis sharing its wire #{pos} ({'reversed' if rev else 'same'} order)", addn.node, key=f"axis.add_neighbour:{pos}:{'rev' if rev else 'fwd'}")
             got2 = run(aal, ax1, ax2)
             r.check(got2 is (not rev), aal, f"is_aligned={got2}", f"Axis.is_aligned gives {got2!r} for an axis sharing wire #{pos} in {'reversed' if rev else 'same'} order", aal.node, key=f"axis.is_aligned:{pos}:{'rev' if rev else 'fwd'}")
+    # one axis asked about two neighbours in turn that carry the same local axis number but run opposite ways: every answer is its own
+    for first_rev in (False, True):
+        ax1 = axis("axis1", base_pairs)
+        nb_a = axis("neighbour-a", [(verts[8], verts[9]), (verts[10], verts[11]), base_pairs[0][::-1] if first_rev else base_pairs[0], (verts[9], verts[10])])
+        nb_b = axis("neighbour-b", [(verts[8], verts[10]), (verts[9], verts[11]), base_pairs[2] if first_rev else base_pairs[2][::-1], (verts[8], verts[11])])
+        got = (run(aal, ax1, nb_a), run(aal, ax1, nb_b))
+        want = (not first_rev, first_rev)
+        r.check(
+            got == want,
+            aal,
+            f"two neighbours with the same local axis number, {'anti-aligned then aligned' if first_rev else 'aligned then anti-aligned'}: {got}",
+            f"Axis.is_aligned asked about two neighbouring axes in turn (both numbered 0 in their blocks, the first {'anti-' if first_rev else ''}aligned, the second {'' if first_rev else 'anti-'}aligned) answers {got}; "
+            f"expected {want}: the answer for the first neighbour is handed out for the second - its chops are copied without inversion and the preserved size lands at the wrong end of its free edges",
+            aal.node,
+            key=f"axis.is_aligned:sequence:{'rev-first' if first_rev else 'fwd-first'}",
+        )
     ax1 = axis("axis1", base_pairs)
     ax3 = axis("axis3", [(verts[8], verts[9]), (verts[10], verts[11]), (verts[0], verts[2]), (verts[1], verts[3])])
     run(addn, ax1, ax3)
@@ -807,4 +826,59 @@ def chopped_wires(repo: Repo) -> RuleRun:
 
 chopped_wires.rule_id = "C01.CHOPPED-WIRES"
 
-RULES = [grade_before_write, consistency_reach, axis_table, count_carried, neighbour_symmetry, coincidence_symmetry, grade_idempotent, chopped_wires]
+def user_chop_kept(repo: Repo, prop: str = PROP, rule: str = "C01.USER-CHOP-KEPT") -> RuleRun:
+    """'a conflict ends in an inconsistent-grading error': a chop the user puts on a block direction makes that direction a CHOPPED
+    one - whatever the direction holds at that moment. After a grading pass a propagated direction holds copies of its neighbour's
+    chops, which the next pass throws away; a user chop merely appended to that list is thrown away with them, and a conflicting
+    count is never seen. Abstract run of Axis.chop on a fresh axis, on a propagated axis that holds copied chops, and on an axis
+    that is chopped already."""
+    r = RuleRun(prop, rule, floor=3, what="Axis.chop turns a propagated direction into a chopped one (its manager replaced) whatever it held before; on a chopped direction the chop is appended")
+    fn = repo.func("items.wires.axis.Axis.chop")
+    axis_cls = repo.cls("items.wires.axis.Axis")
+    chop_mgr, prop_mgr = repo.cls("items.wires.manager.WireChopManager"), repo.cls("items.wires.manager.WirePropagateManager")
+    for label, mgr_cls, held in (("fresh propagated direction", prop_mgr, []), ("propagated direction holding copies of a neighbour's chops (after a grading pass)", prop_mgr, ["copied-chop"]), ("direction chopped before", chop_mgr, ["user-chop-1"])):
+        wires = [Obj(f"w{i}") for i in range(4)]
+        mgr = Obj("manager", cls=mgr_cls)
+        mgr.set("wires", wires)
+        mgr.set("chops", [Obj(h) for h in held])
+        mgr.set("grading", Obj("axis-grading"))
+        axis = Obj("axis", cls=axis_cls)
+        axis.set("index", 0)
+        axis.set("wires", mgr)
+        axis.set("neighbours", set())
+        new_chop = Obj("the-user's-new-chop")
+
+        def hook(ev, call: ast.Call, name):
+            if (name or "").split(".")[-1] == "WireChopManager":
+                args = [ev.eval(a) for a in call.args]
+                m = Obj("new-chop-manager", cls=chop_mgr)
+                m.set("wires", args[0] if args else None)
+                m.set("chops", [])
+                m.set("grading", Obj("axis-grading-new"))
+                return m
+            return NO_MATCH
+
+        try:
+            Evaluator(repo=repo, module=fn.module, call_hook=hook).call_funcinfo(fn, [axis, new_chop])
+        except (Raised, NotEvaluable) as err:
+            raise AnalysisError(f"Axis.chop not evaluable on the model ({label}): {err}") from err
+        after = axis.get("wires")
+        names = [c._name for c in after.get("chops")] if isinstance(after, Obj) and isinstance(after.get("chops"), list) else None
+        want = ([*held, new_chop._name] if mgr_cls is chop_mgr else [new_chop._name])
+        ok = isinstance(after, Obj) and after._cls is chop_mgr and names == want and after.get("wires") is wires
+        r.check(
+            ok,
+            fn,
+            f"{label}: chopped manager holding {want}",
+            f"Axis.chop on a {label}: the direction ends with a {after._cls.name if isinstance(after, Obj) and after._cls is not None else type(after).__name__} holding {names}; expected a WireChopManager on the same four wires "
+            f"holding {want} - a chop appended to the copies of a propagating manager is thrown away with them when the next grading pass starts: the user's (possibly conflicting) count is silently ignored",
+            fn.node,
+            key=f"chop:{label.split(' (')[0]}",
+        )
+    return r
+
+
+user_chop_kept.rule_id = "C01.USER-CHOP-KEPT"
+
+
+RULES = [grade_before_write, consistency_reach, axis_table, count_carried, neighbour_symmetry, coincidence_symmetry, grade_idempotent, chopped_wires, user_chop_kept]
